@@ -240,10 +240,12 @@ fn cmp_prefix(c: Cmp) -> &'static str {
 }
 
 fn spell_num(n: u64, ch: &mut dyn Chooser) -> String {
-    match ch.pick(Cat::ArgSpell, 3) {
+    match ch.pick(Cat::ArgSpell, 5) {
         0 => n.to_string(),
         1 => format!("0{n}"),
-        _ => format!("000{n}"),
+        2 => format!("000{n}"),
+        3 => format!("{}{n}", "0".repeat(21)),
+        _ => format!("{}{n}", "0".repeat(64)),
     }
 }
 
@@ -328,7 +330,7 @@ pub fn primary_words(e: &E, ch: &mut dyn Chooser) -> Option<Vec<Tok>> {
                     PKind::Any => "/",
                 };
                 // octal spelling: 4 digits, or 3 when the value fits; or 5+ with leading zeros
-                let digits = match ch.pick(Cat::ArgSpell, 3) {
+                let digits = match ch.pick(Cat::ArgSpell, 5) {
                     0 => format!("{:04o}", m),
                     1 => {
                         if *m <= 0o777 {
@@ -337,7 +339,9 @@ pub fn primary_words(e: &E, ch: &mut dyn Chooser) -> Option<Vec<Tok>> {
                             format!("{:04o}", m)
                         }
                     }
-                    _ => format!("{:06o}", m),
+                    2 => format!("{:06o}", m),
+                    3 => format!("{:05o}", m),
+                    _ => format!("{:010o}", m),
                 };
                 let word = format!("{pre}{digits}");
                 // -perm takes a word or quoted string
